@@ -12,7 +12,8 @@ var full = instr.Opts{Maps: true, Yields: true, Sync: true, Time: true, Access: 
 var yieldsAndClock = instr.Opts{Yields: true, Time: true}
 
 var yieldsOnly = instr.Opts{Yields: true}
-var mainPkg = instr.Opts{Maps: true, Yields: true, Sync: true, Time: true, Access: true, Main: true, MainPkgName: "idmain"}
+var mainPkg = instr.Opts{Maps: true, Yields: true, Sync: true, Time: true, Access: true, Elems: true, Main: true, MainPkgName: "idmain"}
+var fullElems = instr.Opts{Maps: true, Yields: true, Sync: true, Time: true, Access: true, Elems: true}
 
 var lite = instr.Opts{Maps: true, Yields: true, Sync: true, Time: true, Access: true, NoFields: true}
 
@@ -44,7 +45,7 @@ var all = map[string]*runner.Spec{
 		QuickRuns: 2000, ThorRuns: 80000, QuickCap: 420, ThorCap: 2400,
 		Instrument: func(sc *runner.Scratch) error {
 			_, err := sc.Instrument(runner.InstrumentPlan{
-				V2: map[string]instr.Opts{"": yieldsOnly, "tools/identify_license": mainPkg, "tools/identify_license/backend": full, "tools/identify_license/results": full},
+				V2: map[string]instr.Opts{"": yieldsOnly, "tools/identify_license": mainPkg, "tools/identify_license/backend": fullElems, "tools/identify_license/results": fullElems},
 			})
 			return err
 		},
